@@ -11,6 +11,7 @@ import pipeline as P  # noqa: E402
 import props  # noqa: E402
 
 VERIF = P.VERIF
+EVDIR = os.environ.get('VERIF_EVIDENCE_DIR', os.path.join(VERIF, 'evidence'))
 
 
 def select_harnesses(all_h, prop, tier):
@@ -32,7 +33,7 @@ def backend_chain(name, cfg, tier):
     for pat, chain in cfg.get('backends', []):
         if re.search(pat, name):
             return chain
-    return cfg.get('default_backends', ['z3', 'cvc5', 'sat-arrays'])
+    return cfg.get('default_backends', [('z3', 'cvc5'), 'sat-arrays'])
 
 
 def run_one(cdir, name, h, cfg, tier):
@@ -46,6 +47,15 @@ def run_one(cdir, name, h, cfg, tier):
     runs = []
     final = None
     for be in chain:
+        if isinstance(be, (list, tuple)):
+            # race: the first back end to return a verdict wins, the others are killed
+            r = P.race_cbmc(goto, list(be), h.get('unwind'), tmo)
+            for rr in r['all']:
+                runs.append({'backend': rr['backend'], 'status': rr['status'], 'time': round(rr['time'], 2), 'role': 'race'})
+            if r['winner'] is not None:
+                final = r['winner']
+                break
+            continue
         r = P.run_cbmc(goto, be, h.get('unwind'), tmo)
         runs.append({'backend': be, 'status': r['status'], 'time': round(r['time'], 2)})
         if r['status'] == 'done':
@@ -246,7 +256,7 @@ def main(argv):
             notes.append({'known_finding_not_reproduced': k['id']})
 
     # ---- verdict
-    rdir = os.path.join(VERIF, 'evidence', 'replays', prop)
+    rdir = os.path.join(EVDIR, 'replays', prop)
     vio_lines = []
     if violations:
         os.makedirs(rdir, exist_ok=True)
@@ -284,8 +294,8 @@ def main(argv):
         'assumptions': cfg.get('assumptions', []) + props.COMMON_ASSUMPTIONS,
         'wall_s': round(wall, 1), 'violations': len(violations),
     }
-    os.makedirs(os.path.join(VERIF, 'evidence'), exist_ok=True)
-    json.dump(ev, open(os.path.join(VERIF, 'evidence', '%s.json' % prop), 'w'), indent=1)
+    os.makedirs(EVDIR, exist_ok=True)
+    json.dump(ev, open(os.path.join(EVDIR, '%s.json' % prop), 'w'), indent=1)
 
     for l in kf_lines:
         print(l)
